@@ -268,7 +268,15 @@ def queries(n, heavy):
         q["gamut_dist_scaling"] = (lambda e, i: e.gamut_dist_scaling(i["B"]), 1e-9)
         q["fit_poisson"] = (lambda e, i: e.fit(i["B"][:1], model="poisson"), 5e-2)
         q["fit_adaptive"] = (lambda e, i: e.fit_adaptive(i["B"][:2]), 5e-2)
-    inputs = dict(sig=sig, B=Bq, X=Xq)
+        if n is not None:
+            # queries with non-default arguments are queries too: an explicit variance table / weights / neutral point for this one
+            # call, followed by the plain call again (its answer is the registered state's, as the fresh twin's)
+            q["minimize_variance_explicit_table"] = (lambda e, i: e.minimize_variance(i["B"][:1], Epsilon=i["Eps"]), 5e-2)
+            q["minimize_variance_again"] = (lambda e, i: e.minimize_variance(i["B"][:1]), 5e-2)
+            q["gamut_dist_scaling_explicit_neutral"] = (lambda e, i: e.gamut_dist_scaling(i["B"], neutral_point=np.array([1.0, 2.0, 0.5])), 1e-9)
+            q["gamut_dist_scaling_again"] = (lambda e, i: e.gamut_dist_scaling(i["B"]), 1e-9)
+    Eps = None if n is None else (0.1 + (np.arange(3 * n).reshape(3, n) % 3) * 0.5)
+    inputs = dict(sig=sig, B=Bq, X=Xq, Eps=Eps)
     return q, inputs
 
 
